@@ -98,9 +98,9 @@ static long long cpuMicros()
 }
 __attribute__((noinline)) static void dirtyStack()   // see parsers.cpp
 {
-    volatile unsigned char pad[192 * 1024];
-    for (size_t i = 0; i < sizeof pad; i += 1) pad[i] = 0xAB;
-    __asm__ volatile("" ::: "memory");
+    unsigned char pad[64 * 1024];
+    memset(pad, 0xAB, sizeof pad);
+    __asm__ volatile("" ::"r"(pad) : "memory");
 }
 static void arm(int cpuSec)
 {
